@@ -114,6 +114,48 @@ func c14(args []string) {
 		rand.New(rand.NewSource(rng.Int63())).Read(buf)
 		c14Call(w, buf, pos, n, "random")
 	}
+	// long buffers: fields near the end of buffers longer than any RTCM frame (1029 bytes), around bit 8232 = 1029*8,
+	// and beyond bit 2^16 and 2^19
+	for _, nbytes := range []int{1100, 1500, 9000, 70000} {
+		big := make([]byte, nbytes)
+		rng.Read(big)
+		for k := 0; k < nr/100; k++ {
+			n := 1 + rng.Intn(64)
+			var pos int
+			switch k % 4 {
+			case 0:
+				pos = nbytes*8 - n - rng.Intn(16)
+			case 1:
+				pos = 8232 - 70 + rng.Intn(140)
+			case 2:
+				pos = rng.Intn(nbytes*8 - n)
+			default:
+				pos = 65536 - 70 + rng.Intn(140)
+			}
+			if pos < 0 || pos+n > nbytes*8 {
+				pos = nbytes*8 - n
+			}
+			// the event carries only the bytes around the field (the specification addresses bits relative to them)
+			lo := pos / 8
+			if lo > 2 {
+				lo -= 2
+			}
+			hi := (pos+n+7)/8 + 2
+			if hi > nbytes {
+				hi = nbytes
+			}
+			ev := c14Event{Buf: tr.Ints(big[lo:hi]), Pos: pos - lo*8, Len: n, Cls: "long buffer", Intact: true}
+			before := append([]byte{}, big[lo:hi]...)
+			ev.Panic = tr.Recover(func() {
+				ev.U = tr.Limbs(utils.GetBitsAsUint64(big, uint(pos), uint(n)))
+				if n >= 2 {
+					ev.S = tr.Limbs(uint64(utils.GetBitsAsInt64(big, uint(pos), uint(n))))
+				}
+			})
+			ev.Intact = string(before) == string(big[lo:hi])
+			w.Emit(ev)
+		}
+	}
 	// history: ONE buffer, refilled in place between calls (a read buffer that is reused): every extraction sees
 	// the bytes that are in the buffer now, wherever the previous extraction looked
 	shared := make([]byte, 40+16)
